@@ -507,3 +507,131 @@ def graph_tables(spec: dict, fmt: int, entry: str = "write_arrays"):
 def tmpdir():
     with tempfile.TemporaryDirectory(prefix="geffverif-") as d:
         yield d
+
+
+# --------------------------------------------------------------------------- model requests
+META_LEAF = {".zgroup": "zgroup", ".zattrs": "zattrs", ".zarray": "zarray", "zarr.json": "json"}
+
+
+def parse_key(key: str):
+    """zarr key -> [[path components], leaf, chunk] (the model's structured key)"""
+    comps = key.split("/")
+    if comps[-1] in META_LEAF:
+        return [comps[:-1], META_LEAF[comps[-1]], ""]
+    # format-3 chunk keys: …/c/i/j ; format-2: …/i.j
+    for i in range(len(comps) - 1, -1, -1):
+        if comps[i] == "c" and all(x.isdigit() for x in comps[i + 1:]):
+            return [comps[:i], "chunk", "/".join(comps[i:])]
+    return [comps[:-1], "chunk", comps[-1]]
+
+
+def model_state(snap, order=None):
+    return [[parse_key(k), b] for k, b in abstract_state(snap, order)]
+
+
+_DOCS: dict[int, dict] = {}
+
+
+def docs_for(fmt: int) -> dict:
+    """the constant documents zarr writes for groups, taken from zarr itself"""
+    if fmt in _DOCS:
+        return _DOCS[fmt]
+    s = MemoryStore()
+    r = zarr.open_group(s, mode="a", zarr_format=fmt)
+    snap0 = {k: bytes(v.to_bytes()) for k, v in s._store_dict.items()}
+    r.require_group("x/y")
+    snap = {k: bytes(v.to_bytes()) for k, v in s._store_dict.items()}
+    d = {"zgroup": "-", "zattrs": "-", "gjson": "-"}
+    if fmt == 2:
+        d["zgroup"], d["zattrs"] = h(snap["x/.zgroup"]), h(snap["x/.zattrs"])
+        assert h(snap["x/y/.zgroup"]) == d["zgroup"] and h(snap[".zgroup"]) == d["zgroup"]
+    else:
+        d["gjson"] = h(snap["x/zarr.json"])
+        assert h(snap["x/y/zarr.json"]) == d["gjson"]
+    d["emptyOther"] = abstract_blob(root_doc_key(fmt), snap0[root_doc_key(fmt)])[2]
+    _DOCS[fmt] = d
+    return d
+
+
+def model_graph(spec: dict, fmt: int, entry: str = "write_arrays", valid: bool = True, flags: dict | None = None):
+    """the model's `G` for `spec`: documents read off a fault-free reference write (validation off)
+    into an empty MemoryStore through the same entry point.  None when that write fails."""
+    t = Target("mem")
+    with quiet(t):
+        try:
+            do_write(entry, t.mem, spec, fmt, overwrite=False, validation=False)
+        except Exception:  # noqa: BLE001
+            return None
+    snap = t.snapshot()
+    order = t.keys_in_order()
+    amk = ".zarray" if fmt == 2 else "zarr.json"
+    arrays: dict[str, dict] = {}
+    for k in order:
+        if k.endswith("/" + amk):
+            p = k[: -len(amk) - 1]
+            if fmt == 3 and json.loads(snap[k]).get("node_type") != "array":
+                continue
+            arrays[p] = {"m": h(snap[k]), "c": []}
+    for p, a in arrays.items():
+        # the chunk grid from the array metadata; a chunk that is not stored equals the fill value
+        # (zarr then issues a delete instead of a set)
+        md = json.loads(snap[p + "/" + amk])
+        shape = md["shape"]
+        cs = md["chunks"] if fmt == 2 else md["chunk_grid"]["configuration"]["chunk_shape"]
+        grid = [range(-(-s // c)) if c else range(0) for s, c in zip(shape, cs)]
+        import itertools
+        for idx in itertools.product(*grid):
+            if fmt == 2:
+                suffix = ".".join(map(str, idx)) if idx else "0"
+            else:
+                suffix = "/".join(["c", *map(str, idx)])
+            key = p + "/" + suffix
+            a["c"].append([suffix, h(snap[key]) if key in snap else None])
+
+    def props(grp):
+        names = []
+        for k in order:
+            c = k.split("/")
+            if len(c) >= 4 and c[0] == grp and c[1] == "props" and c[2] not in names:
+                names.append(c[2])
+        gk = f"{grp}/props/" + (".zgroup" if fmt == 2 else "zarr.json")
+        if gk not in snap:
+            return None
+        return [{"name": n, "values": arrays[f"{grp}/props/{n}/values"],
+                 "missing": arrays.get(f"{grp}/props/{n}/missing"),
+                 "data": arrays.get(f"{grp}/props/{n}/data")} for n in names]
+
+    rd = abstract_blob(root_doc_key(fmt), snap[root_doc_key(fmt)])
+    g = {"nodeIds": arrays["nodes/ids"], "edgeIds": arrays["edges/ids"],
+         "nodeProps": props("nodes"), "edgeProps": props("edges"), "geff": rd[1], "valid": valid}
+    if flags:
+        g.update(flags)
+    return g
+
+
+def model_kind(kind: str) -> str:
+    return {"mem": "mem", "local": "loc", "path": "path", "str": "path"}[kind]
+
+
+def model_entry(entry: str) -> str:
+    return entry if entry in ("write_arrays", "write_dicts") else "api"
+
+
+def replay_ops(state: list, ops: list, k: int | None = None):
+    """Python replay of the model's op list on an abstract state (ordered list of [key, blob]);
+    mirrors `Geff.KV.step` and is cross-checked against the driver's own states."""
+    st = [(a, b) for a, b in state]
+    for op in ops[: len(ops) if k is None else k]:
+        kind, key = op[0], op[1]
+        if kind == "set" or (kind == "setnx" and all(a != key for a, _ in st)):
+            if any(a == key for a, _ in st):
+                st = [(a, op[2] if a == key else b) for a, b in st]
+            else:
+                st.append((key, op[2]))
+        elif kind == "del":
+            st = [(a, b) for a, b in st if a != key]
+        elif kind == "delprefix":
+            st = [(a, b) for a, b in st if not (a.startswith(key + "/"))]
+        elif kind == "clear":
+            st = []
+    return st
